@@ -1000,23 +1000,23 @@ def _scheme(repo, col):
                             "other": b_.name if b_.op in ("free", "name", "global") else b_.short(40)}
     col.check(sels == {"jax.sparse": "step_voltage_implicit_with_jax_spsolve", "other": "step_voltage_implicit_with_jaxley_spsolve"},
               R, fi, "implicit stepper per voltage_solver", str(sels), f"steppers are {sels}", node=fn)
-    # the three schemes: which assignment of u["v"] runs for which solver name -- decided on the guards of the stores (polarity of
-    # every `solver == "..."` / `solver != "..."` / `solver in (...)` test on the way), however the if/elif chain is arranged
-    chain = None
-    for n in walk_no_nested(fn):
-        if isinstance(n, ast.If) and isinstance(n.test, ast.Compare) and unparse(n.test.left) == "solver":
-            chain = n
-            break
-    if chain is None:
-        raise AnalysisError("Module.step: solver if-chain not found")
-
+    # the three schemes: the value that ends up in u["v"] for solver == name, for each of the three names -- obtained by
+    # specialising the stored value(s) and the conditions they run under to that name, so that one if/elif chain with three
+    # assignments, a merged branch with `delta_t if solver == "bwd_euler" else delta_t / 2`, or a local that is assigned once
+    # after the chain are all the same program
     def truth(g, name):
-        """truth value of a guard for solver == name; None if the guard is not about the solver"""
+        """truth value of a condition for solver == name; None if it is not about the solver"""
         neg = False
         while g.op == "not" or (g.op == "unary" and g.name == "Not"):
             neg, g = not neg, g.args[0]
         v = None
-        if g.op == "cmp" and len(g.args) == 2 and any(a_.op == "param" and a_.name == "solver" for a_ in g.args):
+        if g.op == "bool":
+            vs = [truth(a_, name) for a_ in g.args]
+            if g.name == "Or":
+                v = True if any(x is True for x in vs) else (False if all(x is False for x in vs) else None)
+            else:
+                v = False if any(x is False for x in vs) else (True if all(x is True for x in vs) else None)
+        elif g.op == "cmp" and len(g.args) == 2 and any(a_.op == "param" and a_.name == "solver" for a_ in g.args):
             other = next(a_ for a_ in g.args if not (a_.op == "param" and a_.name == "solver"))
             if g.name in ("==", "!=") and other.op == "const":
                 v = (other.name == name) == (g.name == "==")
@@ -1024,81 +1024,73 @@ def _scheme(repo, col):
                 v = (name in {x.name for x in other.args}) == (g.name == "in")
         return None if v is None else (v != neg)
 
-    stores_v = [s_ for s_ in ex.stores if s_.kind == "sub" and s_.key.op == "const" and s_.key.name == "v" and
-                any(truth(g, "bwd_euler") is not None for g in s_.guards)]
-    branches = {}
+    def spec(t_, name):
+        if t_.op == "ifexp":
+            tv = truth(t_.args[0], name)
+            if tv is True:
+                return spec(t_.args[1], name)
+            if tv is False:
+                return spec(t_.args[2], name)
+        if not t_.args and not t_.kw:
+            return t_
+        return T(t_.op, t_.name, [spec(a_, name) for a_ in t_.args], {k: spec(v_, name) for k, v_ in t_.kw.items()}, t_.node)
+    clampish = lambda s_: s_.value.op == "mcall" and s_.value.name in ("set", "add") and s_.value.args and s_.value.args[0].op == "sub" and \
+        s_.value.args[0].args[0].op == "attr" and s_.value.args[0].args[0].name == "at"   # the voltage clamp `u["v"].at[rows].set(...)`
+    stores_v = [s_ for s_ in ex.stores if s_.kind == "sub" and s_.key.op == "const" and s_.key.name == "v" and s_.value is not None and not clampish(s_)]
+    if not stores_v:
+        raise AnalysisError("Module.step: no assignment of the new voltages u['v'] found")
+    chain = stores_v[0].stmt
+    values = {}
     for name in ("bwd_euler", "crank_nicolson", "fwd_euler"):
         act = [s_ for s_ in stores_v if all(truth(g, name) is not False for g in s_.guards)]
         if len(act) == 1:
-            branches[name] = [act[0].stmt]
+            values[name] = spec(act[0].value, name)
         else:
             col.bad(R, fi, f"solver '{name}' runs exactly one voltage update", f"{len(act)} assignments of u['v'] are active for solver == '{name}'", node=chain)
-    col.check(set(branches) == {"bwd_euler", "crank_nicolson", "fwd_euler"}, R, fi, "the three schemes are dispatched by name",
-              str(sorted(map(str, branches))), f"dispatch covers {sorted(map(str, branches))}", node=chain)
-    node = chain
-    while len(node.orelse) == 1 and isinstance(node.orelse[0], ast.If) and isinstance(node.orelse[0].test, ast.Compare):
-        node = node.orelse[0]
+    col.check(set(values) == {"bwd_euler", "crank_nicolson", "fwd_euler"}, R, fi, "the three schemes are dispatched by name",
+              str(sorted(values)), f"dispatch covers {sorted(values)}", node=chain)
 
-    def assign_v(body):
-        for st in body:
-            if isinstance(st, ast.Assign) and unparse(st.targets[0]) == "u['v']":
-                return st
-        return None
+    def is_implicit(ct):
+        c0 = _canon(ct.args[0]) if ct.op == "callv" else ct
+        names_ = {x.name for x in c0.walk() if x.op in ("free", "name", "global", "localfn")} if ct.op == "callv" else ({ct.name} if ct.op == "call" else set())
+        return bool(names_) and names_ <= {"step_voltage_implicit_with_jax_spsolve", "step_voltage_implicit_with_jaxley_spsolve"}
 
-    def call_dt(c):
-        """(callee, delta_t keyword text, uses **solver_kwargs)"""
-        if not isinstance(c, ast.Call):
-            return None
-        dt = next((unparse(k.value) for k in c.keywords if k.arg == "delta_t"), None)
-        star = any(k.arg is None and unparse(k.value) == KW for k in c.keywords)
-        return unparse(c.func), dt, star
+    def is_dt(t_):
+        return t_ is not None and t_.op == "param" and t_.name == "delta_t"
 
-    if "bwd_euler" in branches:
-        a = assign_v(branches["bwd_euler"])
-        # the callee is the local that was bound to the implicit stepper of the chosen back end (see `sels` above)
-        def is_implicit(call_node):
-            if not isinstance(call_node, ast.Call):
-                return False
-            ct = _canon(ex.term(call_node.func))
-            names_ = {x.name for x in ct.walk() if x.op in ("free", "name", "global", "localfn")}
-            return bool(names_) and names_ <= {"step_voltage_implicit_with_jax_spsolve", "step_voltage_implicit_with_jaxley_spsolve"}
-        cd_ = call_dt(a.value) if a is not None else None
-        ok = a is not None and cd_ is not None and is_implicit(a.value) and cd_[1:] == ("delta_t", True)
+    def is_half_dt(t_):
+        if t_ is None or t_.op != "binop":
+            return False
+        if t_.name == "/":
+            return is_dt(t_.args[0]) and t_.args[1].op == "const" and t_.args[1].name == 2
+        return t_.name == "*" and {str(x.name) for x in t_.args} == {"delta_t", "0.5"}
+    star = lambda ct: ct.kw.get("**") is not None
+    v = values.get("bwd_euler")
+    if v is not None:
+        ok = v.op in ("callv", "call") and is_implicit(v) and is_dt(v.kw.get("delta_t")) and star(v)
         col.check(ok, R, fi, "bwd_euler: v' = implicit(dt)", "step_voltage_implicit(**solver_kwargs, delta_t=delta_t)",
-                  f"bwd_euler assigns {unparse(a.value) if a else None}", node=a or chain)
-    if "fwd_euler" in branches:
-        a = assign_v(branches["fwd_euler"])
-        ok = a is not None and call_dt(a.value) == ("step_voltage_explicit", "delta_t", True)
+                  f"for solver == 'bwd_euler' the new voltages are {v.short(160)}", node=chain)
+    v = values.get("fwd_euler")
+    if v is not None:
+        ok = v.op == "call" and v.name == "step_voltage_explicit" and is_dt(v.kw.get("delta_t")) and star(v)
         col.check(ok, R, fi, "fwd_euler: v' = explicit(dt)", "step_voltage_explicit(**solver_kwargs, delta_t=delta_t)",
-                  f"fwd_euler assigns {unparse(a.value) if a else None}", node=a or chain)
-    if "crank_nicolson" in branches:
-        body = branches["crank_nicolson"]
-        a = assign_v(body)
-        exb = ex
-        ok = False
-        detail = ""
-        if a is not None:
-            t = ex.term(a.value)
-            detail = t.short(200)
-            # 2*h - v  with h = implicit(dt/2), v = old voltages
-            ev = kin.new_eval(repo)
-            h = T.find(t, lambda x: x.op == "callv")
-            if h is not None and t.op == "binop":
-                dtk = h.kw.get("delta_t")
-                half = dtk is not None and dtk.op == "binop" and dtk.name == "/" and dtk.args[0].op == "param" and \
-                    dtk.args[0].name == "delta_t" and dtk.args[1].op == "const" and dtk.args[1].name == 2
-                half = half or (dtk is not None and dtk.op == "binop" and dtk.name == "*" and
-                                {str(x.name) for x in dtk.args} == {"delta_t", "0.5"})
-                # algebraic form of the combination
-                form = _linform(t, h)
-                ok = half and form == {"h": Fr(2), "v": Fr(-1)}
-                detail += f" ; combination {form}, half step {half}"
+                  f"for solver == 'fwd_euler' the new voltages are {v.short(160)}", node=chain)
+    v = values.get("crank_nicolson")
+    if v is not None:
+        h = T.find(v, lambda x: x.op in ("callv", "call") and (is_implicit(x) or (x.op == "call" and x.name == "step_voltage_explicit")))
+        ok, detail = False, v.short(200)
+        if h is not None:
+            half = is_implicit(h) and is_half_dt(h.kw.get("delta_t")) and star(h)
+            form = _linform(v, h)
+            ok = half and form == {"h": Fr(2), "v": Fr(-1)}
+            detail += f" ; combination {form}, half implicit step {half}"
         col.check(ok, R, fi, "crank_nicolson: v' = 2*implicit(dt/2) - v", "half implicit step, then the explicit half by reflection",
-                  f"crank_nicolson assigns {detail}", node=a or chain)
-    # unknown solver raises
-    last = node
-    col.check(any(isinstance(x, ast.Raise) for x in last.orelse), R, fi, "unknown solver raises", "ValueError",
-              "an unknown solver name does not raise", node=last)
+                  f"for solver == 'crank_nicolson' the new voltages are {detail}", node=chain)
+    # unknown solver raises: a raise statement that is reachable for none of the three names
+    rz = [n_ for n_ in ast.walk(fn) if isinstance(n_, ast.Raise) and
+          all(any(truth(g, nm_) is False for g in ex.stmt_guards.get(id(n_), ())) for nm_ in ("bwd_euler", "crank_nicolson", "fwd_euler")) and
+          any(truth(g, "bwd_euler") is not None for g in ex.stmt_guards.get(id(n_), ()))]
+    col.check(bool(rz), R, fi, "unknown solver raises", "ValueError", "an unknown solver name does not raise", node=chain)
 
 
 def current_terms(repo, col, R, fi, ex, kw, node):
